@@ -17,6 +17,10 @@ class MyErr(Exception):
     pass
 
 
+class MyBaseErr(BaseException):
+    """a task may end with any BaseException (SystemExit, KeyboardInterrupt, test outcomes ...)"""
+
+
 # ----------------------------------------------------------------------
 # direct pool harness
 # ----------------------------------------------------------------------
@@ -60,8 +64,8 @@ class PoolScn:
                 try:
                     if kind == "gate":
                         gates[tid].wait()
-                    if kind == "raise":
-                        e = MyErr(tid)
+                    if kind in ("raise", "baseexc", "sysexit"):
+                        e = {"raise": MyErr, "baseexc": MyBaseErr, "sysexit": SystemExit}[kind](tid)
                         ctx["excs"][tid] = e
                         raise e
                     return ("val", tid)
@@ -106,10 +110,13 @@ class PoolScn:
                         try:
                             v = reply.get()
                             tick("get-val", tid, v)
-                        except MyErr as e:
-                            tick("get-exc", tid, e is ctx["excs"].get(tid))
                         except BaseException as e:  # noqa: BLE001
-                            tick("get-other", tid, type(e).__name__)
+                            if e is ctx["excs"].get(tid):
+                                tick("get-exc", tid, True)
+                            elif type(e).__name__ in ("Teardown", "ProcExit"):
+                                raise
+                            else:
+                                tick("get-other", tid, type(e).__name__)
 
             def primary():
                 tick("primary-enter")
@@ -290,7 +297,9 @@ SCENARIOS = {"pool": PoolScn, "e2e": E2EScn}
 def pool_configs(tier):
     cfgs = []
     for primary in (False, True):
-        for backend in ("thread", "main_thread_only"):
+        for backend in ("thread", "main_thread_only", "gevent"):
+            if backend == "gevent" and primary:
+                continue  # hasprimary requires a thread model
             base = {"primary": primary, "backend": backend, "getters": "none", "waiters": [], "shutdown": False}
             # A) one spawner racing with shutdown, result fetched
             cfgs.append(dict(base, spawners=[["ret"]], shutdown=True, getters="get"))
@@ -304,6 +313,9 @@ def pool_configs(tier):
             cfgs.append(dict(base, spawners=[["ret"], ["raise"]], waiters=[None], getters="get"))
             # F) gated task with a timed waitall
             cfgs.append(dict(base, spawners=[["gate"]], waiters=[0.25]))
+            # G) tasks ending with BaseException subclasses, then another task, waitall
+            cfgs.append(dict(base, spawners=[["baseexc", "ret"]], waiters=[None], getters="get"))
+            cfgs.append(dict(base, spawners=[["sysexit"], ["ret"]], shutdown=True, getters="get"))
             if tier == "thorough":
                 cfgs.append(dict(base, spawners=[["ret"], ["raise"]], shutdown=True, getters="get"))
                 cfgs.append(dict(base, spawners=[["ret"], ["gate"]], waiters=[None, None], getters="get"))
